@@ -205,8 +205,9 @@ func (o *c07Oracle) after(ch *chain, ci *callInfo) *Violation {
 			return violf("C07/validator-record-vanished", "%s: validator %s disappeared during BeginBlock", where, a)
 		}
 		if got.StakedTokens.BigInt().Cmp(mv.stake) != 0 {
-			return violf("C07/stake-after-slash", "%s: validator %s stake %s -> %s, the statement's arithmetic gives %s (min stake %s, fractions ds=%s dt=%s, queued burn %v, downtime=%v)\nevidence %+v",
-				where, a, before.Vals[a].StakedTokens, got.StakedTokens, mv.stake, minStake, fDS, fDT, before.Burns[a], downtime[a], ci.Req.ByzantineValidators)
+			return violf("C07/stake-after-slash", "%s: validator %s stake %s -> %s, the statement's arithmetic gives %s (min stake %s, fractions ds=%s dt=%s, queued burn %v, downtime=%v)\nevidence %+v\nrecord before: status=%v jailed=%v; after: status=%v jailed=%v",
+				where, a, before.Vals[a].StakedTokens, got.StakedTokens, mv.stake, minStake, fDS, fDT, before.Burns[a], downtime[a], ci.Req.ByzantineValidators,
+				before.Vals[a].Status, before.Vals[a].Jailed, got.Status, got.Jailed)
 		}
 		if (got.Status == sdk.Unstaked) != (mv.status == sdk.Unstaked) {
 			return violf("C07/status-after-slash", "%s: validator %s has status %v with stake %s, expected unstaked=%v (min stake %s)", where, a, got.Status, got.StakedTokens, mv.status == sdk.Unstaked, minStake)
